@@ -194,6 +194,48 @@ Section WithOracle.
       intros w Rw Nw Hn. apply K; auto. intros ->. contradiction.
   Qed.
 
+  (** where contents end up after one [insert_owned]: the filed contents sit under an id in the class
+      of the incoming id, and every other entry keeps its contents under an id of its old class *)
+  Lemma put_track p e c v p' :
+    Inv p -> EnvInv e -> ~ In v (live e) -> rootp p v -> (forall w, In w (live e) -> rootp p w) ->
+    uf_unions p (snd (insert_owned e c v)) = Ok p' ->
+    (exists v', In (c, v') (to_id (fst (fst (insert_owned e c v)))) /\ rep p' v' = rep p' v)
+    /\ (forall c0 v0, In (c0, v0) (to_id e) ->
+          exists v'', In (c0, v'') (to_id (fst (fst (insert_owned e c v)))) /\ rep p' v'' = rep p' v0).
+  Proof.
+    intros HI I Hv Rv Rl.
+    destruct (insert_owned_proj e c v) as (Pid & Pact & Pus).
+    rewrite Pid, Pus. unfold io_ids, io_us.
+    destruct (find_id (to_id e) c) as [old|] eqn:E.
+    2:{ simpl. intros X. injection X as <-. split; [exists v; simpl; auto|].
+        intros c0 v0 H. exists v0. simpl. auto. }
+    apply find_id_Some in E.
+    assert (Hold : In old (live e)) by (apply in_live; eauto).
+    assert (Ro : rootp p old) by (apply Rl; exact Hold).
+    assert (Nov : old <> v) by (intros ->; contradiction).
+    destruct (Nat.eqb_spec old v) as [|_]; [contradiction|].
+    destruct Ro as [Ro Lo]. destruct Rv as [Rv Lv].
+    destruct (uf_union_spec p old v HI Lo Lv) as (p1 & Hu & HI1 & Hl1 & Hg).
+    simpl. rewrite Hu. simpl. intros X. injection X as <-.
+    assert (Em : rep p1 old = rep p1 v).
+    { rewrite (Hg old), (Hg v). apply glue_merges. }
+    destruct (Nat.eqb_spec (Nat.min old v) old) as [Emin|Nmin].
+    - split; [exists old; auto|]. intros c0 v0 H. exists v0. auto.
+    - assert (Hmin : Nat.min old v = v) by lia. rewrite Hmin.
+      split; [exists v; simpl; auto|].
+      intros c0 v0 H. destruct (cont_eqb c0 c) eqn:Ec.
+      + apply cont_eqb_eq in Ec. subst c0.
+        assert (v0 = old) by (eapply NoDup_fst_fun; [apply (inv_keys e I)| |]; eauto). subst v0.
+        exists v. simpl. auto.
+      + apply cont_eqb_neq in Ec. exists v0. split; [|reflexivity]. right. apply in_del_key. auto.
+  Qed.
+
+  Lemma io_ids_keep m c v d w : In (d, w) m -> d <> c -> In (d, w) (io_ids m c v).
+  Proof.
+    intros H N. unfold io_ids. destruct (find_id m c) as [old|]; [|simpl; auto].
+    destruct (Nat.min old v =? old); [exact H|]. right. apply in_del_key. auto.
+  Qed.
+
   (* ---------------------------------------------------------------- the full strategy *)
 
   Definition tid (t : cont * nat * bool) : nat := snd (fst t).
@@ -317,6 +359,46 @@ Section WithOracle.
       + apply T2; auto.
   Qed.
 
+  Definition tpair (t : cont * nat * bool) : cont * nat := (tcont t, tid t).
+
+  (** where contents end up after the second loop of the full strategy *)
+  Lemma reinsert_track : forall todo p e us dirty,
+    Inv p -> EnvInv e -> NoDup (map tid todo) ->
+    (forall w, In w (map tid todo) -> ~ In w (live e) /\ rootp p w) ->
+    (forall w, In w (live e) -> rootp p w) ->
+    exists p' us',
+      snd (fst (reinsert todo e us dirty)) = us ++ us' /\ uf_unions p us' = Ok p'
+      /\ forall c v, ((exists v', In (c, v') (to_id e) /\ rep p v' = rep p v) \/ In (c, v) (map tpair todo)) ->
+            exists v', In (c, v') (to_id (fst (fst (reinsert todo e us dirty)))) /\ rep p' v' = rep p' v.
+  Proof.
+    induction todo as [|[[c v] st] tl IH]; intros p e us dirty HI I ND Ht Rl.
+    - exists p, []. simpl. rewrite app_nil_r. split; [reflexivity|]. split; [reflexivity|].
+      intros c v [H|[]]. exact H.
+    - cbn [reinsert].
+      inversion ND as [|x l Hnv ND']; subst.
+      destruct (Ht v) as [Hv Rv]; [simpl; auto|].
+      destruct (put_step p e c v HI I Hv Rv Rl) as (p1 & U1 & I1 & R1 & S1 & O1).
+      pose proof U1 as (Eu1 & HI1 & _ & Hco1 & _).
+      destruct (put_track p e c v p1 HI I Hv Rv Rl Eu1) as [T7 T8].
+      destruct (insert_owned e c v) as [[e' actual] u] eqn:Eio.
+      cbn [fst snd] in *.
+      assert (Ht1 : forall w, In w (map tid tl) -> ~ In w (live e') /\ rootp p1 w).
+      { intros w Hw. destruct (Ht w) as [Hw1 Hw2]; [simpl; auto|].
+        assert (Nwv : w <> v) by (intros ->; contradiction).
+        split; [|apply O1; auto]. intros Hl. apply S1 in Hl as [->|Hl]; contradiction. }
+      destruct (IH p1 e' (us ++ u) (if st && (actual =? v) then dirty ++ [v] else dirty) HI1 I1 ND' Ht1 R1)
+        as (p2 & us2 & E2 & U2 & T2).
+      exists p2, (u ++ us2). rewrite E2, app_assoc. split; [reflexivity|].
+      split; [rewrite uf_unions_app, Eu1; simpl; exact U2|].
+      intros c0 v0 [(v0' & Hin & Heq)|Hin].
+      + destruct (T8 c0 v0' Hin) as (v'' & Hin' & Heq'). apply T2. left. exists v''. split; [exact Hin'|].
+        rewrite Heq'. eapply coarse_eq; eauto.
+      + destruct Hin as [Hin|Hin].
+        * unfold tpair, tcont, tid in Hin. simpl in Hin. injection Hin as <- <-.
+          destruct T7 as (v' & Hin' & Heq'). apply T2. left. eauto.
+        * apply T2. right. exact Hin.
+  Qed.
+
   Lemma rootp_rep p w : rootp p w -> rep p w = w.
   Proof. intros [H _]. exact H. Qed.
 
@@ -390,6 +472,49 @@ Section WithOracle.
       intros w H. apply S2 in H as [H|H].
       + rewrite Etid in H. apply Hids. exact H.
       + apply in_live in H as (c & H). apply Hin1 in H as [H _]. apply in_live. eauto.
+  Qed.
+
+  Theorem pass_full_track p e e2 us dirty chg :
+    Inv p -> EnvInv e -> (forall w, In w (live e) -> rootp p w) ->
+    pass_full oracle (rep p) e = (e2, us, dirty, chg) ->
+    exists p', uf_unions p us = Ok p'
+      /\ forall c v, In (c, v) (to_id e) ->
+            exists v', In (rebuild_contents oracle (rep p) c, v') (to_id e2) /\ rep p' v' = rep p' v.
+  Proof.
+    intros HI I Rl. unfold pass_full.
+    rewrite scan_full_L.
+    2:{ intros c v H. apply rootp_rep. apply Rl. apply in_live. eauto. }
+    set (chs := filter (chf (rep p)) (to_id e)).
+    set (e1 := fold_left take (map snd chs) e).
+    set (todo := map (fun cv => (rebuild_raw oracle (rep p) (fst cv), snd cv, true)) chs).
+    cbn [app orb].
+    destruct (reinsert todo e1 [] []) as [[e2' us'] dirty'] eqn:Er.
+    intros X. injection X as <- <- <- <-.
+    assert (Etid : map tid todo = map snd chs).
+    { unfold todo. rewrite map_map. apply map_ext. intros [c v]. reflexivity. }
+    assert (Hchs : forall c v, In (c, v) chs <-> In (c, v) (to_id e) /\ changed (rep p) c = true).
+    { intros c v. unfold chs. rewrite filter_In. unfold chf. simpl. tauto. }
+    assert (I1 : EnvInv e1) by (apply take_many_inv; exact I).
+    assert (Hin1 : forall c w, In (c, w) (to_id e1) <-> In (c, w) (to_id e) /\ ~ In w (map snd chs))
+      by (intros; apply take_many_in).
+    assert (Hids : forall w, In w (map snd chs) -> In w (live e)).
+    { intros w H. apply in_map_iff in H as ([c w'] & Ew & H). simpl in Ew. subst w'.
+      apply Hchs in H as [H _]. apply in_live. eauto. }
+    destruct (reinsert_track todo p e1 [] [] HI I1) as (p' & us2 & E2 & U2 & T2).
+    - rewrite Etid. apply NoDup_map_filter. apply (inv_ids e I).
+    - rewrite Etid. intros w H. split; [|apply Rl; apply Hids; exact H].
+      intros Hl. apply in_live in Hl as (c & Hl). apply Hin1 in Hl as [_ Hl]. contradiction.
+    - intros w H. apply in_live in H as (c & H). apply Hin1 in H as [H _]. apply Rl. apply in_live. eauto.
+    - rewrite Er in *. cbn [fst snd app] in *. subst us2.
+      exists p'. split; [exact U2|].
+      intros c v H. apply T2. unfold rebuild_contents. destruct (changed (rep p) c) eqn:Ec.
+      + right. unfold todo. rewrite map_map. apply in_map_iff. exists (c, v). split; [reflexivity|].
+        apply Hchs. auto.
+      + left. exists v. split; [|reflexivity]. apply Hin1. split; [exact H|].
+        intros Hn. apply in_map_iff in Hn as ([c0 v0] & Ev & Hn). simpl in Ev. subst v0.
+        apply Hchs in Hn as [H1 H2].
+        assert (c0 = c) by (eapply NoDup_snd_fun; [apply (inv_ids e I)| |]; eauto).
+        subst c0. congruence.
   Qed.
 
   (* ---------------------------------------------------------------- the incremental strategy *)
@@ -506,6 +631,86 @@ Section WithOracle.
         rewrite Hch, orb_false_r in A3. rewrite Hch, orb_false_r. apply A3.
         intros d w H. rewrite Pid in H. apply io_ids_in in H as [[-> _]|H]; [exact Cc'|].
         apply Hin1 in H as [H _]. eapply Hall; eauto.
+    Qed.
+
+    Lemma rebuild_contents_idem c :
+      rebuild_contents oracle f (rebuild_contents oracle f c) = rebuild_contents oracle f c.
+    Proof. apply rebuild_contents_same. apply rebuild_contents_canonical. exact f_idem. Qed.
+
+    (** where contents end up after the incremental strategy *)
+    Lemma inc_loop_track : forall ids p e us dirty chg,
+      Inv p -> EnvInv e -> (forall w, In w (live e) -> rootp p w /\ f w = w) ->
+      exists p' us',
+        snd (fst (fst (inc_loop oracle f ids e us dirty chg))) = us ++ us' /\ uf_unions p us' = Ok p'
+        /\ forall c v,
+              ((exists v', In (rebuild_contents oracle f c, v') (to_id e) /\ rep p v' = rep p v)
+               \/ (In (c, v) (to_id e) /\ In v ids)) ->
+              exists v', In (rebuild_contents oracle f c, v')
+                            (to_id (fst (fst (fst (inc_loop oracle f ids e us dirty chg)))))
+                         /\ rep p' v' = rep p' v.
+    Proof.
+      induction ids as [|id tl IH]; intros p e us dirty chg HI I Rl.
+      - exists p, []. simpl. rewrite app_nil_r. split; [reflexivity|]. split; [reflexivity|].
+        intros c v [H|[_ []]]. exact H.
+      - cbn [inc_loop]. destruct (get_container e id) as [cid|] eqn:G.
+        2:{ destruct (IH p e us dirty chg HI I Rl) as (p' & us' & E & U & T).
+            exists p', us'. split; [exact E|]. split; [exact U|].
+            intros c v [H|[H1 [<-|H2]]]; [apply T; auto| |apply T; auto].
+            exfalso. apply (get_container_spec e id c I) in H1. congruence. }
+        apply (get_container_spec e id cid I) in G.
+        assert (Hlid : In id (live e)) by (apply in_live; eauto).
+        destruct (Rl id Hlid) as [Rid Fid]. rewrite Fid, Nat.eqb_refl. cbn [negb andb orb].
+        change (mkEnv (del_id (to_id e) id) (to_cont e) (vidx e)) with (take_keep e id).
+        set (c' := rebuild_contents oracle f cid).
+        set (e1 := take_keep e id).
+        assert (I1 : EnvInv e1) by (apply EnvInv_take_keep; exact I).
+        assert (Hn1 : ~ In id (live e1)) by (intros H; apply live_take_keep in H as [_ H]; congruence).
+        assert (Rl1 : forall w, In w (live e1) -> rootp p w)
+          by (intros w H; apply live_take_keep in H as [H _]; apply Rl; exact H).
+        destruct (put_step p e1 c' id HI I1 Hn1 Rid Rl1) as (p1 & U1 & I2 & R2 & S2 & O2).
+        pose proof U1 as (Eu1 & HI1 & _ & Hco1 & _).
+        destruct (put_track p e1 c' id p1 HI I1 Hn1 Rid Rl1 Eu1) as [T7 T8].
+        destruct (insert_owned_proj e1 c' id) as (Pid & _ & _).
+        destruct (insert_owned e1 c' id) as [[e2 actual] u] eqn:Eio.
+        cbn [fst snd] in *.
+        assert (Hsub : forall w, In w (live e2) -> In w (live e)).
+        { intros w H. apply S2 in H as [->|H]; [exact Hlid|]. apply live_take_keep in H as [H _]. exact H. }
+        assert (Hin1 : forall d w, In (d, w) (to_id e1) <-> In (d, w) (to_id e) /\ w <> id)
+          by (intros; apply in_del_id).
+        destruct (IH p1 e2 (us ++ u)
+                     (if changed f cid && true && (actual =? id) then dirty ++ [id] else dirty)
+                     (chg || changed f cid) HI1 I2) as (p2 & us2 & E2 & U2 & T2).
+        { intros w H. split; [apply R2; exact H|]. apply Rl. apply Hsub. exact H. }
+        rewrite orb_false_r.
+        exists p2, (u ++ us2). rewrite E2, app_assoc. split; [reflexivity|].
+        split; [rewrite uf_unions_app, Eu1; simpl; exact U2|].
+        assert (Hhead : forall v0, rep p id = rep p v0 ->
+                  exists v', In (c', v') (to_id e2) /\ rep p1 v' = rep p1 v0).
+        { intros v0 Heq. destruct T7 as (v' & Hin' & Heq'). exists v'. split; [exact Hin'|].
+          rewrite Heq'. eapply coarse_eq; eauto. }
+        intros c0 v0 [(v0' & Hin & Heq)|[Hin Hids]].
+        + apply T2. left. destruct (Nat.eq_dec v0' id) as [->|Nid].
+          * (* the tracked entry is the one being rebuilt: its contents are already canonical *)
+            assert (Ec : cid = rebuild_contents oracle f c0)
+              by (eapply NoDup_snd_fun; [apply (inv_ids e I)| |]; eauto).
+            assert (Ec' : c' = rebuild_contents oracle f c0).
+            { unfold c'. rewrite Ec. apply rebuild_contents_idem. }
+            rewrite <- Ec'. apply Hhead. exact Heq.
+          * destruct (T8 (rebuild_contents oracle f c0) v0') as (v'' & Hin' & Heq').
+            { apply Hin1. auto. }
+            exists v''. split; [exact Hin'|]. rewrite Heq'. eapply coarse_eq; eauto.
+        + destruct (Nat.eq_dec v0 id) as [->|Nid].
+          * assert (Ec : c0 = cid) by (eapply NoDup_snd_fun; [apply (inv_ids e I)| |]; eauto).
+            subst c0. apply T2. left. apply Hhead. reflexivity.
+          * destruct Hids as [Hx|Hids]; [congruence|].
+            destruct (changed f c0) eqn:Ech.
+            -- (* still to be visited: the entry is untouched (its contents are not canonical) *)
+               apply T2. right. split; [|exact Hids]. rewrite Pid. apply io_ids_keep.
+               ++ apply Hin1. auto.
+               ++ intros ->. pose proof (rebuild_contents_canonical f f_idem cid) as X.
+                  fold c' in X. unfold canonical in X. congruence.
+            -- apply T2. left. rewrite (rebuild_contents_same c0 Ech).
+               destruct (T8 c0 v0) as (v'' & Hin' & Heq'); [apply Hin1; auto|]. eauto.
     Qed.
   End Inc.
 End WithOracle.
